@@ -204,7 +204,7 @@ def replay_schedules(chk: Check, w: Tuple[str, ...], limit: Optional[int], rnd: 
         if rec:
             # the interleaved calls of all threads, in the order of their linearization points
             provtrace.mark_end(False)
-            ptr.append(({"workloads": list(w), "schedule": sc}, provtrace.project(provtrace.stop() or [], None)))
+            ptr.append(({"workloads": list(w), "schedule": sc}, provtrace.project(provtrace.stop(), None)))
         chk.count(["tlc-schedule", w, sc])
         steps = [sum(1 for t, lab in s.trace if t == i and lab == "provide_lock.acquire") for i in range(len(w))]
         if steps != [MODEL_STEPS[x] for x in w] or ch.state["diverged"]:
@@ -257,7 +257,7 @@ def explore(chk: Check, label: str, mk_tasks: Callable[[], List[Callable[[], Any
             sched.WATCH_ON[0] = False
             if rec:
                 provtrace.mark_end(False)
-                _PTR.append(({"label": label, "chooser": ch_name}, provtrace.project(provtrace.stop() or [], None)))
+                _PTR.append(({"label": label, "chooser": ch_name}, provtrace.project(provtrace.stop(), None)))
         chk.count([label, ch_name])
         left = sched.registries_empty()
         sched.clear_registries()
